@@ -17,9 +17,27 @@
     dec <fmt> <hex>                → ok <value> <hex rest> | unsupported | error
     deser <fmt> <hex>              → ok <Struct> <[fields]> | error <kind> | unsupported | panic <site>
     schema                         → the generated schema, one line
+
+  JSON with floats / binaries (Nexus/Codec/WpDJsonO.lean).  <orc> is a table of sampled oracle
+  answers, entries separated by `;`, `-` when empty:
+      f<16 hex float bits>=<hex of the bytes EncodeFloat64 writes>
+      p<hex of a number token>=<16 hex float bits of parseFloat64_custom | x for an error>
+  (a float / token that is not in the table: empty output / error).
+    jorc <orc>                     → ok <n> | fail d<bits> <flags any-digit,all-numchar,parse,int-shape as 0/1>
+                                     (`FloatOrc.faithfulAt` on every finite f entry)
+    jenc <orc> <value>             → ok <hex> (`Json.encO`) | orc-miss
+    jdec <orc> <hex>               → ok <value> <hex rest> | unsupported | error   (`Json.decO`)
+    jdeser <orc> <hex>             → like deser json, over `Json.decO`; `unsupported num` when the
+                                     cause is a number token (`-`, `-0`), `unsupported other` else
+    bdm <hex>                      → ok <hex>                                   (`Json.marshalBD`)
+    bdu <hex>                      → ok <hex> | error | unsupported | panic     (`Json.unmarshalBD`)
+    bdupre <hex>                   → the same for the pre-fix code              (`Json.unmarshalBDPre`)
+    b64d <hex>                     → ok <hex> | error                           (`B64.dec`)
 -/
 import Nexus.Codec.Msg
 import Nexus.Codec.Wire
+import Nexus.Codec.WpDWireO
+import Nexus.Codec.WpDBinaryData
 
 namespace Driver.Codec
 
@@ -165,7 +183,136 @@ def parseSchema (desc : String) : Option MsgSchema :=
     | _, _ => none
   | _ => none
 
+/-! ### JSON oracle tables -/
+
+def u64OfHex (h : String) : Option UInt64 :=
+  match bytesOfHex h with
+  | some b => if b.length == 8 then some (UInt64.ofNat (b.foldl (fun acc x => acc * 256 + x.toNat) 0)) else none
+  | none => none
+
+structure OrcTable where
+  f : List (UInt64 × Bytes) := []
+  p : List (Bytes × Option UInt64) := []
+
+def parseOrc (t : String) : Option OrcTable :=
+  if t == "-" then some {}
+  else
+    (t.splitOn ";").foldlM (init := ({} : OrcTable)) fun acc e =>
+      match e.toList with
+      | 'f' :: rest =>
+        match (String.ofList rest).splitOn "=" with
+        | [bits, tok] =>
+          match u64OfHex bits, bytesOfHex tok with
+          | some b, some tk => some { acc with f := (b, tk) :: acc.f }
+          | _, _ => none
+        | _ => none
+      | 'p' :: rest =>
+        match (String.ofList rest).splitOn "=" with
+        | [tok, res] =>
+          match bytesOfHex tok with
+          | some tk =>
+            if res == "x" then some { acc with p := (tk, none) :: acc.p }
+            else match u64OfHex res with
+              | some b => some { acc with p := (tk, some b) :: acc.p }
+              | none => none
+          | none => none
+        | _ => none
+      | _ => none
+
+def OrcTable.orc (t : OrcTable) : Json.FloatOrc where
+  fmt b := ((t.f.find? fun e => e.1 == b).map (·.2)).getD []
+  parse tok := ((t.p.find? fun e => e.1 == tok).map (·.2)).getD none
+
+mutual
+  partial def floatsOf : CVal → List UInt64
+    | .float b => [b]
+    | .list l => l.flatMap floatsOf
+    | .dict d => d.flatMap fun kv => floatsOf kv.2
+    | _ => []
+end
+
+def u64Hex (b : UInt64) : String :=
+  hexOfBytes ((List.range 8).map fun k => UInt8.ofNat (b.toNat / 256 ^ (7 - k) % 256))
+
+def b01 (b : Bool) : String := if b then "1" else "0"
+
+def handleJson (line : String) : Option String :=
+  match line.splitOn " " with
+  | ["jorc", t] =>
+    match parseOrc t with
+    | some tbl =>
+      let orc := tbl.orc
+      let bad := tbl.f.find? fun e => Json.isFinite e.1 && !orc.faithfulAt e.1
+      match bad with
+      | none => some s!"ok {tbl.f.length}"
+      | some (b, _) =>
+        let tok := orc.fmt b
+        some s!"fail d{u64Hex b} {b01 (tok.any Json.isDigit)}{b01 (tok.all Json.isNumChar)}{b01 (Json.lossyIntegral b || orc.parse tok == some b)}{b01 (Json.smallIntTok tok == Json.lossyIntegral b)}"
+    | none => some "bad-request"
+  | ["jenc", t, v] =>
+    match parseOrc t, parse v with
+    | some tbl, some v =>
+      if (floatsOf v).any fun b => Json.isFinite b && !(tbl.f.any fun e => e.1 == b) then some "orc-miss"
+      else some ("ok " ++ hexOfBytes (Json.encO tbl.orc v))
+    | _, _ => some "bad-request"
+  | ["jdec", t, h] =>
+    match parseOrc t, bytesOfHex h with
+    | some tbl, some b =>
+      match Json.decO tbl.orc b with
+      | .ok (v, rest) => some s!"ok {render v} {if rest.isEmpty then "-" else hexOfBytes rest}"
+      | .error .unsupported => some "unsupported"
+      | .error .malformed => some "error"
+    | _, _ => some "bad-request"
+  | ["jdeser", t, h] =>
+    match parseOrc t, bytesOfHex h with
+    | some tbl, some b =>
+      match Wire.deserializeJsonO tbl.orc b with
+      | .ok r => some (renderMsgRes r)
+      | .error .unsupported =>
+        -- is a number token the cause?  Read `-` / `-0` as nil and look again.
+        let num' := fun tok => match Json.decNumTokO tbl.orc tok with
+          | .error .unsupported => .ok .null
+          | r => r
+        match Json.decVG num' (b.length + 1) b with
+        | .error .unsupported => some "unsupported other"
+        | _ => some "unsupported num"
+      | .error .malformed => some "error decode"
+    | _, _ => some "bad-request"
+  | ["bdm", h] =>
+    match bytesOfHex h with
+    | some b => some ("ok " ++ hexOfBytes (Json.marshalBD b))
+    | none => some "bad-request"
+  | ["bdu", h] =>
+    match bytesOfHex h with
+    | some b =>
+      match Json.unmarshalBD b with
+      | .ok r => some ("ok " ++ (if r.isEmpty then "-" else hexOfBytes r))
+      | .error => some "error"
+      | .unsupported => some "unsupported"
+      | .panic _ => some "panic"
+    | none => some "bad-request"
+  | ["bdupre", h] =>
+    match bytesOfHex h with
+    | some b =>
+      match Json.unmarshalBDPre b with
+      | .ok r => some ("ok " ++ (if r.isEmpty then "-" else hexOfBytes r))
+      | .error => some "error"
+      | .unsupported => some "unsupported"
+      | .panic _ => some "panic"
+    | none => some "bad-request"
+  | ["b64d", h] =>
+    match bytesOfHex h with
+    | some b =>
+      match B64.dec b with
+      | some r => some ("ok " ++ (if r.isEmpty then "-" else hexOfBytes r))
+      | none => some "error"
+    | none => some "bad-request"
+  | _ => none
+
 def handle (line : String) : String :=
+  match handleJson line with
+  | some ans => ans
+  | none =>
   match line.splitOn " " with
   | ["m2l", name, fields] =>
     match Nexus.Gen.structs.find? (·.name == name), parse fields with
